@@ -30,6 +30,9 @@ def run(ctx):
                       replay=trav.replay_map(r))
     res.rule("ORDER-SWEEP", n)
     det(ctx, res)
+    from rules import hist
+    hist.run(ctx, res, 'C07')       # composition: histories through the public API against the reference model (rules/hist.py)
+    common.vacuity(res, "HISTORY", 3000)
     steps(ctx, res)
     common.vacuity(res, "ORDER-SWEEP", 3000)
     res.analysed = common.analysed(ctx, [f"{m}.{g}" for m, l, g, s in trav.TRAVS.values()])
